@@ -252,7 +252,7 @@ pub fn run(args: &Args, rep: &mut Report) {
     vpc::quiet_panics();
     let mut rng = Rng::new(args.shard_seed());
     let thorough = args.tier.is_thorough();
-    let b = boundary_values();
+    let b: Vec<u64> = if args.opts.contains_key("small") { boundary_values().into_iter().step_by(3).collect() } else { boundary_values() };
     if args.replay.is_some() {
         // witnesses are (expected, current) pairs from the boundary grid: re-run the grid
     }
@@ -272,7 +272,8 @@ pub fn run(args: &Args, rep: &mut Report) {
     if args.replay.is_some() {
         return;
     }
-    let n = if thorough { 1_000_000 } else { 100_000 };
+    let small = args.opts.contains_key("small"); // interpreter (Miri) run: same paths, few inputs, no store
+    let n = if small { 300 } else if thorough { 1_000_000 } else { 100_000 };
     for _ in 0..n {
         // random pairs, biased to small differences and to the edges
         let x = match rng.below(4) { 0 => rng.next_u64(), 1 => rng.below(16), 2 => u64::MAX - rng.below(16), _ => *rng.pick(&b) };
@@ -283,5 +284,7 @@ pub fn run(args: &Args, rep: &mut Report) {
         check_pair(rep, ExpectedVersion::Exact(x), CurrentVersion::Empty);
         check_roundtrips(rep, x);
     }
-    store_compare(args, rep, &mut rng, if thorough { 6 } else { 1 });
+    if !small {
+        store_compare(args, rep, &mut rng, if thorough { 6 } else { 1 });
+    }
 }
